@@ -100,10 +100,10 @@ theorem convNode_untyped_reject (k : IKind) (c1 : NS) (p : Int)
 theorem conv_untyped_exact (i : Nat) (e : CExpr) (hs : intShape e = true) (hq : noRuneQuo i e = true)
     (gv : Spec.GV) (hgo : Spec.evalGo i e = .ok gv) (hun : gv.ty.untyped = true) (k : IKind) :
     Class.compare (evalY F0 { iota := i } none (.conv (.i k) e)) (Spec.evalGo i (.conv (.i k) e)) = .same := by
-  obtain ⟨c1, hc1, hinv⟩ := evalY_int_correct { iota := i } rfl rfl e hs hq gv hgo
+  obtain ⟨c1, hc1, hinv⟩ := evalY_int_correct { iota := i } rfl e hs hq gv hgo
   cases hc : Spec.evalGo i (.conv (.i k) e) with
   | ok gv' =>
-    obtain ⟨n, hn, hi⟩ := evalY_int_correct { iota := i } rfl rfl (.conv (.i k) e) (by simpa [intShape] using hs)
+    obtain ⟨n, hn, hi⟩ := evalY_int_correct { iota := i } rfl (.conv (.i k) e) (by simpa [intShape] using hs)
       (by simpa [noRuneQuo] using hq) gv' hc
     rw [hn]
     rcases hi.shape with ⟨_, _, _, rfl, hty, hrv⟩ | ⟨_, _, rfl, hty, hrv, _⟩ <;>
@@ -181,7 +181,7 @@ theorem typed_var_decl_exact (k : IKind) (e : CExpr) (hs : declShape e = true) (
     (gv : Spec.GV) (hgo : Spec.evalGo 0 e = .ok gv) :
     varDeclY F0 (some (.i k)) e = Spec.declGo 0 (some (.i k)) e := by
   have hi := declShape_intShape e hs
-  obtain ⟨n, hn, hinv⟩ := evalY_int_correct { iota := 0 } rfl rfl e hi hq gv hgo
+  obtain ⟨n, hn, hinv⟩ := evalY_int_correct { iota := 0 } rfl e hi hq gv hgo
   simp only [varDeclY, unmodelled, unmodelledU_int false e hi, Spec.declGo, hgo, bind_ok]
   rw [evalY_forced_irrelevant { iota := 0 } rfl _ e hs]
   show (evalY F0 { iota := 0 } none e).bind _ = _
@@ -256,7 +256,7 @@ theorem typed_const_decl_exact (i : Nat) (k : IKind) (e : CExpr) (hl : litChain 
     (Spec.declGo i (some (.i k)) e = .reject → ∀ first, constGtaY F0 i first (some (.i k)) e = .reject) := by
   have hd := litChain_declShape e hl
   have hi := declShape_intShape e hd
-  obtain ⟨n, hn, hinv⟩ := evalY_int_correct { iota := i } rfl rfl e hi (litChain_noRuneQuo i e hl) gv hgo
+  obtain ⟨n, hn, hinv⟩ := evalY_int_correct { iota := i } rfl e hi (litChain_noRuneQuo i e hl) gv hgo
   obtain ⟨hacc, hrej⟩ := assignY_cases n gv hinv k
   have hdecl : Spec.declGo i (some (.i k)) e = Spec.assignGo gv (.i k) := by simp [Spec.declGo, hgo]
   have hgta : ∀ first, constGtaY F0 i first (some (.i k)) e = assignY F0 n (.i k) := by
